@@ -74,6 +74,8 @@ mod temp_built_in_files;
 mod test_runner;
 mod type_defs;
 mod values;
+#[cfg(wilfred_garden_verif)]
+mod verif_hooks;
 mod version;
 mod wrap_in_dbg;
 
@@ -284,6 +286,9 @@ enum CliCommands {
     /// Run a Garden snippet in a sandbox and return the output as
     /// JSON.
     PlaygroundRun { path: PathBuf },
+    /// Verification hook: run `op` on JSON lines read from stdin.
+    #[cfg(wilfred_garden_verif)]
+    Verif { op: String },
     /// Start the Language Server Protocol (LSP) server.
     Lsp,
     /// Start an nREPL server, listening for clients over TCP.
@@ -685,6 +690,10 @@ fn main() {
             } else {
                 print!("{formatted}");
             }
+        }
+        #[cfg(wilfred_garden_verif)]
+        CliCommands::Verif { op } => {
+            verif_hooks::run(&op);
         }
         CliCommands::PlaygroundRun { path } => {
             let abs_path = to_abs_path(&path);
